@@ -316,13 +316,28 @@ func c01check(c *Ctx, r *codec.Req, enc string) {
 		}
 	}
 	c.Count("requests", 1)
-	c.Count("decodes", 1)
 	c.Count("requests."+r.Op, 1)
+	// the server's log level must not change what a handler receives: decode under an error-level and under a
+	// debug-level logger (gldap dumps - and so walks - every packet it reads when the level is debug)
+	for _, debug := range []bool{false, true} {
+		c01checkOne(c, r, enc, b, debug)
+	}
+	if c.n%20011 == 5 || len(c.Samp) < 2 {
+		c.Sample(map[string]interface{}{"encoder": enc, "request": r, "hex": hex.EncodeToString(trunc2(b))})
+	}
+}
+
+func c01checkOne(c *Ctx, r *codec.Req, enc string, b []byte, debug bool) {
+	c.Count("decodes", 1)
 	var req *gldap.Request
 	var err error
-	k := try(func() { req, err = decode(b, 1, false) })
+	k := try(func() { req, err = decode(b, 1, debug) })
 	shape := shapeOf(r)
 	rep := c01rep{Req: r}
+	if debug {
+		enc += "+debug-logger"
+		rep.Note = "debug-level logger"
+	}
 	switch {
 	case k != "":
 		c.Outcome(enc + " " + shape + " :panic")
@@ -334,13 +349,14 @@ func c01check(c *Ctx, r *codec.Req, enc string) {
 		f, d := c01diff(r, req)
 		if f != "" {
 			c.Outcome(enc + " " + shape + " :differs")
-			c.Report(fmt.Sprintf("%s differs from what the client encoded", f), fmt.Sprintf("encoder=%s %s; bytes %x", enc, d, trunc2(b)), rep)
+			what := "differs from what the client encoded"
+			if debug {
+				what += " when the server logs at debug level"
+			}
+			c.Report(fmt.Sprintf("%s %s", f, what), fmt.Sprintf("encoder=%s %s; bytes %x", enc, d, trunc2(b)), rep)
 		} else {
 			c.Outcome(enc + " " + shape + " :equal")
 		}
-	}
-	if c.n%20011 == 5 || len(c.Samp) < 2 {
-		c.Sample(map[string]interface{}{"encoder": enc, "request": r, "hex": hex.EncodeToString(trunc2(b))})
 	}
 }
 
